@@ -155,6 +155,15 @@ func discharge(o *Obligation, timeout time.Duration) (r OblResult) {
 			r.Info += "lin: " + why + " "
 		}
 	}
+	// first with nonlinear products abstracted to fresh integers (sound for validity, much easier),
+	// then exactly
+	if hasNonlinear(o.Facts, o.Goal) {
+		qa := &Query{Facts: o.Facts, Goal: o.Goal, Axioms: o.Axioms, AbstractNL: true}
+		if sa := Solve(qa, timeout/3+time.Second, false, nil); sa.Verdict == "unsat" {
+			r.Verdict, r.Backend, r.Script = "proved", sa.Solver+"(nl-abstracted)", sa.Script
+			return r
+		}
+	}
 	q := &Query{Facts: o.Facts, Goal: o.Goal, Axioms: o.Axioms}
 	sr := Solve(q, timeout, true, nil)
 	r.Backend = sr.Solver
@@ -356,4 +365,30 @@ func (en *Engine) lookupFunc(pkgPath, key string) *ssa.Function {
 		}
 	}
 	return nil
+}
+
+func hasNonlinear(facts []*Term, goal *Term) bool {
+	seen := map[int]bool{}
+	found := false
+	var rec func(t *Term)
+	rec = func(t *Term) {
+		if found || seen[t.id] {
+			return
+		}
+		seen[t.id] = true
+		if (t.op == OMul && len(t.args) >= 2) || t.op == OPow {
+			found = true
+			return
+		}
+		for _, a := range t.args {
+			rec(a)
+		}
+	}
+	for _, f := range facts {
+		rec(f)
+	}
+	if goal != nil {
+		rec(goal)
+	}
+	return found
 }
